@@ -736,3 +736,23 @@ fn c09_pool_data_non_ascii() {
     }
     kani::cover!(true);
 }
+
+/// C02: an independently encoded pool may contain an UNUSED entry (count 0)
+/// that still has text; the reader must consume its bytes so that the entries
+/// after it are cut from the right offsets.  (Count concrete 0: with a symbolic
+/// count the string lengths downstream become symbolic.)
+#[kani::proof]
+#[kani::unwind(8)]
+#[kani::stub(std::fmt::format, crate::util::stub_format)]
+fn c02_pool_read_zero_count_with_text() {
+    let rc1: u16 = kani::any();
+    kani::assume(rc1 >= 1);
+    let pool = mk_pool(["a", "b"], [0, rc1], false);
+    assert!(pool.num_strings() == 2, "C02: number of pool entries read differs from the encoded header");
+    assert!(text_is(&pool, 1, "b"), "C02: the entry after an unused entry with text is read from the wrong offset");
+    assert!(pool.refcount(sref(2)) == rc1 && pool.refcount(sref(1)) == 0, "C02: reference counts read differ from the encoded ones");
+    let t0 = pool.get(sref(1)).as_bytes();
+    assert!(t0.len() == 0 || (t0.len() == 1 && t0[0] == b'a'), "C02: an unused entry reads as something other than its own text or empty");
+    kani::cover!(true);
+    std::mem::forget(pool);
+}
